@@ -14,6 +14,7 @@ def check(ctx):
     exceptions.empty_selection_reductions(ctx, 'C08-R2')
     baseheight.routine_internals(ctx, 'C08-R2')
     exceptions.okta_is_python_int(ctx, 'C08-R2')
+    exceptions.chunk_never_empty(ctx, 'C08-R2')
     exceptions.decorators_pass_through(ctx, 'C08-R3')
     ctx.undecided += ['termination and totality of the third-party numerics for every accepted input',
                       'label-based indexing on repeated labels (IndexError) is decided under C10-R1',
